@@ -180,9 +180,11 @@ func NewWorld(r *simkit.Run, net *NetCfg) *World {
 }
 
 // solve finds a nonce; ok=true: hash <= target, ok=false: hash > target.
-func solve(h *wire.BlockHeader, ok bool) {
+func solve(h *wire.BlockHeader, ok bool) { solveFrom(h, ok, 0) }
+
+func solveFrom(h *wire.BlockHeader, ok bool, start uint32) {
 	t, _, _ := compactToBig(h.Bits)
-	for n := uint32(0); ; n++ {
+	for n := start; ; n++ {
 		h.Nonce = n
 		var buf bytes.Buffer
 		h.Serialize(&buf)
@@ -190,7 +192,7 @@ func solve(h *wire.BlockHeader, ok bool) {
 		if (v.Cmp(t) <= 0) == ok {
 			return
 		}
-		if n == 1<<22 {
+		if n == start+1<<22 {
 			// give up on this timestamp-nonce space; bump the time by a second
 			panic("chainsim: cannot solve header")
 		}
@@ -586,6 +588,11 @@ func (w *World) Build(parent *MBlock, o BlockOpts) *MBlock {
 		msg.Header.MerkleRoot[7] ^= 0x10
 	}
 	solve(&msg.Header, !bp.badPow)
+	for w.ByHash[msg.BlockHash()] != nil {
+		// two model blocks with equal headers (both without transactions,
+		// say) must stay distinct blocks
+		solveFrom(&msg.Header, !bp.badPow, msg.Header.Nonce+1)
+	}
 
 	b.Msg = msg
 	b.Hash = msg.BlockHash()
